@@ -63,7 +63,7 @@ def loadFrom (dbg : Bool) : ProjState → List (Str × Except Err FileTree) → 
 def loadAll (dbg : Bool) (fs : List (Str × Except Err FileTree)) : ProjState := loadFrom dbg {} fs
 
 /-- `xs` with `x` inserted at position `k` (at the end when `k` is too large) -/
-def insertAt {α} (k : Nat) (x : α) (xs : List α) : List α := xs.take k ++ x :: xs.drop k
+def insertFileAt {α} (k : Nat) (x : α) (xs : List α) : List α := xs.take k ++ x :: xs.drop k
 
 def isOkFile (f : Str × Except Err FileTree) : Bool :=
   match f.2 with
